@@ -20,12 +20,14 @@ Fixpoint window (x : list val) (k : list Q) (D i j : nat) (acc : Q * Q) : Q * Q 
     window x r D i (S j) acc'
   end.
 
-Inductive res := Val (q : Q) | ZeroDiv.
+(* EmptyWin: no sample of the window is inside the track and not NaN (norm = 0); the code writes NaN there
+   (before the repair recorded under C15 it raised ZeroDivisionError) *)
+Inductive res := Val (q : Q) | EmptyWin.
 
 Definition filter_at (x : list val) (k : list Q) (i : nat) : res :=
   let D := (length k / 2)%nat in
   let '(t, norm) := window x k D i 0 (0, 0) in
-  if Qeq_bool norm 0 then ZeroDiv else Val (t / norm).
+  if Qeq_bool norm 0 then EmptyWin else Val (t / norm).
 
 (* boundary copy when the kernel does not filter boundaries *)
 Definition filter_out (boundary : bool) (x : list val) (k : list Q) (i : nat) : option res :=
@@ -33,3 +35,11 @@ Definition filter_out (boundary : bool) (x : list val) (k : list Q) (i : nat) : 
   if negb boundary && ((i <? D)%nat || (length x - D <=? i)%nat)
   then match nth i x None with Some v => Some (Val v) | None => None end   (* copies the input, NaN included *)
   else Some (filter_at x k i).
+
+(* ---- Kernel.toSlidingWindow (kernel.py): size = 2*int(support)+1, sample i is taken at x = int(support) - i,
+   masked by |x| <= support (always true for these integer abscissas), then normalised by the sum ---- *)
+Definition window_samples (f : Z -> Q) (m : nat) : list Q :=
+  map (fun i => f (Z.of_nat m - Z.of_nat i)%Z) (seq 0 (2 * m + 1)).
+Definition qsum (l : list Q) : Q := fold_right Qplus 0 l.
+Definition sliding_window (f : Z -> Q) (m : nat) : list Q :=
+  let v := window_samples f m in map (fun x => x / qsum v) v.
